@@ -300,6 +300,12 @@ func (w *c29World) runHistoryCase(ctx context.Context, e *venv, sess int, cmd c2
 	}
 	if failVerify {
 		kind += "-verify-fails"
+		for _, n := range before {
+			if w.pwOf[n] == cmd.newpw {
+				kind += "-shared-pw"
+				break
+			}
+		}
 	}
 	w.c.Hist(fmt.Sprintf("key-ops=%d", len(trace)))
 	w.c.Case(kind, len(trace) > 0, len(before)+len(trace), term,
@@ -453,7 +459,7 @@ func engineC29(c *vctx) error {
 				w.runHistoryCase(ctx, cl, sess, cmd, k, false)
 				_ = os.RemoveAll(cl.base)
 			}
-			if cmd.kind != "remove" && (si < 2 || c.thorough()) {
+			if cmd.kind != "remove" {
 				// a password no existing key has: otherwise the verification succeeds through that other key
 				cmd2 := cmd
 				cmd2.newpw = -1
@@ -467,6 +473,23 @@ func engineC29(c *vctx) error {
 					if !used {
 						cmd2.newpw = pw
 					}
+				}
+				// and a password another key (or the key in use) already has: the verification may then
+				// succeed through that key although the new key file cannot be read
+				if si < 5 || c.thorough() {
+					cmd3 := cmd
+					cmd3.newpw = sess
+					for _, n := range names {
+						if p, ok := w.pwOf[n]; ok && p >= 0 && p != sess {
+							cmd3.newpw = p
+						}
+					}
+					cl, err := c29Clone(c, e, "c29-vfail-shared")
+					if err != nil {
+						return err
+					}
+					w.runHistoryCase(ctx, cl, sess, cmd3, -1, true)
+					_ = os.RemoveAll(cl.base)
 				}
 				if cmd2.newpw >= 0 {
 					cl, err := c29Clone(c, e, "c29-vfail")
